@@ -21,10 +21,14 @@ directly calling GIT (for development).
         import os
         import subprocess
         # describe the repository that contains this file, not the one
-        # (if any) in the current working directory
+        # (if any) in the current working directory or the one named
+        # in the environment (git exports GIT_DIR to its hooks)
+        environment = {name: value for name, value in os.environ.items()
+                       if not name.startswith('GIT_')}
         version = subprocess.check_output(
-            ["git", "describe", "--tags", "--always"],
+            ["git", "describe", "--tags", "--always", "--abbrev=7"],
             cwd=os.path.dirname(os.path.abspath(__file__)),
+            env=environment,
             stderr=subprocess.DEVNULL).strip().decode('utf-8')
         return version
     except (subprocess.CalledProcessError, OSError):
